@@ -99,6 +99,8 @@ def spaces(draw, modes=("product", "sequential", "custom"), max_params=4, allow_
 
 
 def render_values(p):
+    if p.get("expr"):  # a numpy expression given literally (its value list is p["values"])
+        return p["expr"]
     vals = p["values"]
     if p.get("render") == "numpy":
         return "numpy.array(" + repr(list(vals)) + ")"
